@@ -56,6 +56,39 @@ func ruleAmountOpsMatch(c *Ctx, rule string) {
 			c.bad(rule, key, fn.Pos(), fmt.Sprintf("MonetaryInt.%s is implemented with big.Int.%s: every balance computed with it is wrong (a negated overdraft becomes a positive balance that can be spent again)", fn.Name(), strings.Join(used, "/")))
 		}
 	}
+	// comparisons: through big.Int.Cmp / Sign (or another comparison method of the type), never through a truncating
+	// conversion (`a.Uint64() == b.Uint64()` merges amounts that differ above 64 bits)
+	cmpNames := map[string]bool{"Lte": true, "Gte": true, "Lt": true, "Gt": true, "Eq": true, "Equal": true, "Ltz": true, "Cmp": true}
+	for _, fn := range c.FuncsIn(pkgMachine) {
+		if fn.Signature.Recv() == nil || recvTypeName(fn) != "MonetaryInt" || !cmpNames[fn.Name()] || len(fn.Blocks) == 0 {
+			continue
+		}
+		exact, trunc := false, ""
+		allCalls(fn, func(ci ssa.CallInstruction) {
+			name := calleeFullName(ci)
+			switch {
+			case name == "(*math/big.Int).Cmp" || name == "(*math/big.Int).CmpAbs" || name == "(*math/big.Int).Sign":
+				exact = true
+			case strings.HasPrefix(name, "(*math/big.Int).") && (strings.HasSuffix(name, "Uint64") || strings.HasSuffix(name, "Int64") || strings.HasSuffix(name, "Float64")):
+				trunc = name
+			}
+			if g := staticCallee(ci); g != nil && g.Signature.Recv() != nil && recvTypeName(origin(g)) == "MonetaryInt" {
+				if cmpNames[g.Name()] {
+					exact = true
+				} else if g.Name() == "Uint64" || g.Name() == "Int64" {
+					trunc = "MonetaryInt." + g.Name()
+				}
+			}
+		})
+		n++
+		c.seeFn(fn)
+		key := "MonetaryInt." + fn.Name() + ":compares-whole-values"
+		if trunc == "" && exact {
+			c.ok(rule, key, fn.Pos(), "compares through big.Int.Cmp")
+		} else {
+			c.bad(rule, key, fn.Pos(), "MonetaryInt."+fn.Name()+" compares through "+trunc+" instead of big.Int.Cmp: amounts that differ above 64 bits compare equal (the compiler merges their constants, the program moves another amount than the source says)")
+		}
+	}
 	if n < 3 {
 		c.undecided(rule, "floor:amount-operations", token.NoPos, fmt.Sprintf("expected at least 3 arithmetic methods of MonetaryInt implemented with big.Int (Add, Sub, Neg), found %d", n))
 	}
